@@ -11,14 +11,18 @@ PARTIAL = [
     "left-to-right order). NOT proved: that the binary32 key as compiled keeps that order on the property's domain — "
     "legalize_idempotent_binary32 takes 'the f32 key of every movable cell equals the exact key' as a hypothesis (it is the "
     "property's own assumption; |v| < 2^20 alone does not imply it for non-dyadic weights, and for huge orderingHeight the "
-    "statement is false for binary32); supported by the `order` sub-stream and by re-legalizing legal placements on the real "
-    "code and on the f32 model.",
+    "statement is false for binary32: idempotence_binary32_needs_exact_key, kernel-evaluated and replayed on the real code — "
+    "orderingHeight = 2^30 passes LegalizationParameters::check, both keys round to 2^31, the two cells of a legal row are "
+    "swapped with orderingWidth = 1/2; candidate known finding, witness corpus/C11/kf2-candidate.json, NOT in "
+    "known_findings.json; the generator draws |orderingHeight| <= 100 so the stream does not reach it); supported by the "
+    "`order` sub-stream and by re-legalizing legal placements on the real code and on the f32 model.",
     "OrientLegal is an explicit hypothesis (C01's Legal says nothing about orientations): no movable cell has orientation "
     "INVALID and a polarised cell already has the orientation cellOrientationInRow prescribes in its segment; the harness' "
     "legal placements satisfy it (outputs of legalize, and constructed ones carry the row-demanded orientation).",
-    "'legalizing twice = legalizing once' (legalize_twice) takes domain membership and legality of the first result as "
-    "hypotheses: that the first result is Legal is C01's legalize_legal (in progress there), OrientLegal of the result is "
-    "not proved; both are evaluated by the before/after oracle on the real code.",
+    "'legalizing twice = legalizing once' IS proved for arbitrary input positions (legalize_twice: C01.Dom, all movable cells one "
+    "row high, exact key, 0<=orderingWidth<=1: if the first call returns c' the second returns c' again; the first result is "
+    "shown to be in the domain, legal by C01's legalize_legal, and orientation-legal); for the compiled binary32 key the same "
+    "order-keeping hypothesis as above is needed on the first result (legalize_twice_any_key).",
 ]
 ASSUMPTIONS = [
     "same model and assumptions as C01 (lean/ColoVerif/Model/Legalize.lean)",
